@@ -229,8 +229,7 @@ def finish(mod, tier, seed, acc, nshards, wall, replay_dir):
         'transitions': acc.transitions,
         'traces_validated_against_impl': acc.executions,
         'evaluations': max(acc.cases, acc.executions),
-        'distinct_nontrivial': len(acc.states) + acc.nstates,
-        'rule': getattr(mod, 'RULE', ''),
+        'rule': getattr(mod, 'RULE', '') + ' || states = distinct canonical states (hashed) plus cases that are distinct by construction of the enumeration; evaluations = complete executions on the real code',
         'samples': acc.samples or [{'note': 'no sample recorded'}],
         'exhaustive': not acc.caps,
         'bounds': mod.bounds(tier) if hasattr(mod, 'bounds') else {},
